@@ -705,6 +705,49 @@ def configVersion (exportStamp : Option Int) (enums : List Nat) : Py Txt :=
   | some s => if s ≠ 0 then .ok (lookup Gen.Version.peExportStampEntries s) else enumVersion enums
   | none => enumVersion enums
 
+/-! ### histories on ONE `BeaconConfig` object
+
+`BeaconConfig.version` is a property computed from the object's *current* attributes: `pe_export_stamp`
+(a public attribute, assigned by `from_file` and assignable by users) and the immutable settings.
+`pe_compile_stamp` and `architecture` are other public attributes that must not matter. -/
+
+inductive CfgOp
+  | readVersion
+  | readMaxEnum
+  | setExportStamp (s : Option Int)
+  | setCompileStamp (s : Option Int)
+  | setArch (a : Option Arch)
+  deriving DecidableEq, Repr
+
+structure CfgState where
+  exportStamp : Option Int := none
+  compileStamp : Option Int := none
+  arch : Option Arch := none
+  deriving DecidableEq, Repr
+
+inductive CfgOut
+  | version (r : Py Txt)
+  | maxEnum (r : Py Nat)
+  deriving DecidableEq
+
+/-- attribute assignment -/
+def cfgNext (s : CfgState) : CfgOp → CfgState
+  | .setExportStamp x => { s with exportStamp := x }
+  | .setCompileStamp x => { s with compileStamp := x }
+  | .setArch a => { s with arch := a }
+  | _ => s
+
+/-- what a step returns to the caller (reads only) -/
+def cfgRead (enums : List Nat) (s : CfgState) : CfgOp → List CfgOut
+  | .readVersion => [.version (configVersion s.exportStamp enums)]
+  | .readMaxEnum => [.maxEnum (maxEnumOf enums)]
+  | _ => []
+
+/-- outputs of all reads of a history executed on one object with setting indices `enums` -/
+def cfgRun (enums : List Nat) : CfgState → List CfgOp → List CfgOut
+  | _, [] => []
+  | s, op :: ops => cfgRead enums s op ++ cfgRun enums (cfgNext s op) ops
+
 /-- `version_only` -/
 def natDigits (n : Nat) : Txt :=
   if h : n < 10 then [48 + n] else natDigits (n / 10) ++ [48 + n % 10]
